@@ -195,6 +195,9 @@ func execDoQ(f []string) vlib.Res {
 		names := make([]string, len(behs))
 		for i, beh := range behs {
 			names[i] = fmt.Sprintf("dq%d-s%d-%s.z.c10.", doqSeq, i, beh)
+			if beh[0] == 'a' {
+				names[i] = bigName(doqSeq, i, vlib.Atoi(beh[1:]))
+			}
 			gateMu.Lock()
 			gates[names[i]] = make(chan struct{})
 			gateMu.Unlock()
@@ -208,7 +211,11 @@ func execDoQ(f []string) vlib.Res {
 		}()
 		for i := range behs {
 			before := d.l.Stub.Calls.Load()
-			s, err := openDoqStream(conn, mkQuery(uint16(0x4000+i*3), names[i], true))
+			q := mkQuery(uint16(0x4000+i*3), names[i], true)
+			if behs[i][0] == 'a' {
+				q = retype(q, dns.TypeA)
+			}
+			s, err := openDoqStream(conn, q)
 			if err != nil {
 				return vlib.Res{Impl: "stream-error", Oracle: "-"}
 			}
@@ -272,7 +279,12 @@ func doqRun(seed uint64, nconn, nstreams, rounds int) vlib.Res {
 					if r.Chance(1, 5) {
 						name = fmt.Sprintf("shared%d-d2.z.c10.", r.Intn(3))
 					}
-					s, err := openDoqStream(conn, mkQuery(uint16(c)<<10|uint16(seq&1023), name, true))
+					q := mkQuery(uint16(c)<<10|uint16(seq&1023), name, true)
+					if r.Chance(1, 6) {
+						name = bigName(100+c, seq, vlib.Pick(r, []int{58, 60, 70}))
+						q = retype(mkQuery(uint16(c)<<10|uint16(seq&1023), name, true), dns.TypeA)
+					}
+					s, err := openDoqStream(conn, q)
 					if err != nil {
 						return
 					}
@@ -311,4 +323,15 @@ func sig_of(v string) string {
 		}
 	}
 	return "doq/unspecified"
+}
+
+// retype rewrites the question type of a packed query.
+func retype(raw []byte, t uint16) []byte {
+	m := new(dns.Msg)
+	if m.Unpack(raw) != nil {
+		return raw
+	}
+	m.Question[0].Qtype = t
+	b, _ := m.Pack()
+	return b
 }
